@@ -22,7 +22,8 @@ VIEW_NP = {'asarray', 'reshape', 'moveaxis', 'broadcast_to', 'ravel', 'transpose
 VIEW_METHODS = {'reshape', 'transpose', 'ravel', 'squeeze', 'view', 'swapaxes', 'T', 'tocsr', 'tocoo'}
 MUTATING_METHODS = {'append', 'extend', 'insert', 'pop', 'remove', 'sort', 'reverse', 'clear', 'update', 'setdefault',
                     'add', 'discard', 'popitem', 'fill', 'resize', 'put', 'itemset', 'add_edge', 'add_edges_from',
-                    'add_nodes_from', 'add_node', 'remove_node', 'remove_edge', 'shuffle'}
+                    'add_nodes_from', 'add_node', 'remove_node', 'remove_edge', 'shuffle',
+                    'eliminate_zeros', 'sum_duplicates', 'sort_indices', 'setdiag', 'prune'}
 CONTAINER_READERS = {'values', 'items', 'keys', 'get'}
 INPLACE_KINDS = {'ndarray', 'list', 'set', 'dict'}
 
@@ -472,6 +473,8 @@ class FuncAlias(Structured):
             if last in CONTAINER_READERS:
                 return Val(FRESH, recv.elem, 'list', recv.ekind)
             if last in VIEW_METHODS:
+                if any(k.arg == 'copy' and isinstance(k.value, ast.Constant) and k.value.value is True for k in c.keywords):
+                    return Val(FRESH, FRESH, recv.kind)          # tocsr(copy=True) and the like: a converted COPY
                 return Val(recv.own, recv.own, recv.kind)
             d = self.fi.module.dotted(f) or ''
             if (d.startswith('numpy.') or d.startswith('scipy.')) and last in VIEW_NP and args:
